@@ -1,5 +1,6 @@
 import SparseSpace.Lemmas.HierPoly
 import SparseSpace.Lemmas.HierUnique
+import SparseSpace.Lemmas.HierTriTree
 import Mathlib.Tactic.IntervalCases
 import Mathlib.Tactic.NormNum
 /-!
@@ -17,8 +18,9 @@ Clauses of the property and the theorems that carry them
   dimension" — `gaussSolve_sound`, `hierarchise_interpolate_id`, `hierarchise_interpolate_id_table`
   (any basis family: Lagrange, restricted, B-spline — the basis functions are arbitrary);
 * "the per-pole systems are uniquely solvable" — `unitriangular_unique` + `hierarchise_surpluses_unique`
-  (uniqueness whenever the collocation matrices are unit-triangular in some order of the points, which the
-  hierarchical restricted Lagrange matrices are in level order — that last fact is validated, not proved);
+  (uniqueness whenever the collocation matrices are level-triangular), `collocation_unitriangular` (they ARE, for the
+  hierarchical restricted Lagrange basis of every order on every refinement tree), `gaussSolve_complete`,
+  `hier_lagrange_solvable` (no hypothesis left for the hierarchical Lagrange grids);
 * "polynomials up to min(p, n-1) are reproduced everywhere" — `poly_reproduction`, `lagrange_partition` for ONE
   Lagrange knot window (`n = p+1` knots: every polynomial of degree ≤ p = n-1), and
   `hier_reproduces_span` for the hierarchical interpolant (everything in the span of the tensor basis is
@@ -197,5 +199,81 @@ theorem inj1_of_levelTriangular (D : Dim1) (lev : List Nat) (hl : lev.length = D
     (hB : LevelTriangular (colloc D) lev) : Inj1 D := by
   intro α β hα hβ h
   exact levelTriangular_injective (colloc D) lev hB α β (by rw [hl]; exact hα) (by rw [hl]; exact hβ) h
+
+/-! ## Extension: the solvability hypothesis is discharged for the hierarchical Lagrange grids
+
+`RTree` is the inductive characterisation of the valid 1-D point sets (end points of level 0; every further point is the
+midpoint of an interval between two already present neighbouring points and gets the level of that interval + 1);
+`RTree.grid p t a b` attaches to every point the knots the code selects (end points + ancestors + the point itself,
+`p+1` window) — validated on every run to coincide with the flat `hierKnots` (= `compute_1D_quad_weights`) and with the
+basis objects of the real grids. -/
+
+/-- **`collocation_unitriangular`**: for every order `p ≥ 1`, every refinement tree and every interval the
+collocation matrix of the hierarchical restricted Lagrange basis has unit diagonal, and entry `(i,j)` vanishes whenever
+point `i` is not on a strictly higher level than point `j` (a basis function vanishes at every other point of its own
+and of all coarser levels: such a point is a knot of its window or lies outside its support) -/
+theorem collocation_unitriangular (p : Nat) (hp : 1 ≤ p) (t : RTree) (a b : ℚ) (hab : a < b) :
+    LevelTriangular (colloc (t.dim1 p a b)) ((t.grid p a b).map HNode.lev) :=
+  levelTriangular_of_gridOK _ (grid_ok p hp t a b hab)
+
+/-- `gaussSolve` never meets a zero pivot column on an injective square system -/
+theorem gaussSolve_complete (B : Mat) (v : Vec) (hB : B.length = v.length) (hrows : ∀ r ∈ B, r.length = v.length)
+    (hinj : ∀ α β : Vec, α.length = v.length → β.length = v.length → mulVec B α = mulVec B β → α = β) :
+    ∃ α, gaussSolve B v = some α :=
+  SparseSpace.Hier.gaussSolve_complete B v hB hrows hinj
+
+/-- the dimensions of a hierarchical Lagrange grid of order `p`: one tree and one interval per dimension -/
+def lagDims (p : Nat) (specs : List (RTree × ℚ × ℚ)) : List Dim1 :=
+  specs.map fun s => s.1.dim1 p s.2.1 s.2.2
+
+theorem lagDims_facts (p : Nat) (hp : 1 ≤ p) (specs : List (RTree × ℚ × ℚ)) (hspec : ∀ s ∈ specs, s.2.1 < s.2.2) :
+    WellFormed (lagDims p specs) ∧ (∀ D ∈ lagDims p specs, Inj1 D) ∧ PolesSolvable gaussSolve (lagDims p specs) := by
+  refine ⟨?_, ?_, ?_⟩
+  · intro D hD
+    simp only [lagDims, List.mem_map] at hD
+    obtain ⟨s, _, rfl⟩ := hD
+    simp [RTree.dim1]
+  · intro D hD
+    simp only [lagDims, List.mem_map] at hD
+    obtain ⟨s, hs, rfl⟩ := hD
+    exact inj1_of_levelTriangular _ _ (by simp [RTree.dim1, Dim1.n])
+      (collocation_unitriangular p hp s.1 s.2.1 s.2.2 (hspec s hs))
+  · intro D hD v hv
+    simp only [lagDims, List.mem_map] at hD
+    obtain ⟨s, hs, rfl⟩ := hD
+    exact poleSolve_of_levelTriangular _ _ (by simp [RTree.dim1, Dim1.n])
+      (collocation_unitriangular p hp s.1 s.2.1 s.2.2 (hspec s hs)) v hv
+
+/-- **`hier_lagrange_solvable`**: for hierarchical Lagrange grids of every order `p ≥ 1`, every refinement tree in every
+dimension and every table, WITHOUT any solvability hypothesis: the hierarchisation goes through, the interpolant takes
+the table value at every node, and the surpluses are the only array with that property -/
+theorem hier_lagrange_solvable (p : Nat) (hp : 1 ≤ p) (specs : List (RTree × ℚ × ℚ))
+    (hspec : ∀ s ∈ specs, s.2.1 < s.2.2) (T : Vec) (hT : T.length = size (lagDims p specs)) :
+    ∃ S, hier gaussSolve (lagDims p specs) T = some S ∧
+      (∀ q, validIdx (lagDims p specs) q →
+        T[flatIdx (lagDims p specs) q]? = some (interp (lagDims p specs) (nodeCoords (lagDims p specs) q) S)) ∧
+      (∀ S' : Vec, S'.length = size (lagDims p specs) →
+        (∀ q, validIdx (lagDims p specs) q →
+          T[flatIdx (lagDims p specs) q]? = some (interp (lagDims p specs) (nodeCoords (lagDims p specs) q) S')) → S' = S) := by
+  obtain ⟨hw, hinj, hok⟩ := lagDims_facts p hp specs hspec
+  obtain ⟨S, hS⟩ := hier_succeeds gaussSolve (lagDims p specs) hok T hT
+  exact ⟨S, hS, fun q hq => hierarchise_interpolate_id _ hw T S hT hS q hq,
+    fun S' hS' hnod => hierarchise_surpluses_unique _ hw hinj T S S' hT hS hS' hnod⟩
+
+/-- vector-valued tables: the whole table is hierarchised -/
+theorem hier_lagrange_solvable_table (p : Nat) (hp : 1 ≤ p) (specs : List (RTree × ℚ × ℚ))
+    (hspec : ∀ s ∈ specs, s.2.1 < s.2.2) (tab : List Vec) (hT : ∀ T ∈ tab, T.length = size (lagDims p specs)) :
+    ∃ surp, hierTable gaussSolve (lagDims p specs) tab = some surp := by
+  obtain ⟨_, _, hok⟩ := lagDims_facts p hp specs hspec
+  exact mapOpt_exists _ _ (fun T hTm => hier_succeeds gaussSolve (lagDims p specs) hok T (hT T hTm))
+
+/-- non-vacuity: a graded tree (points 0, 1/4, 1/2, 1 with levels 0,2,1,0) times a one-interval grid, order 3 -/
+example : ∃ S, hier gaussSolve (lagDims 3 [(RTree.node (RTree.node .leaf .leaf) .leaf, 0, 1), (RTree.leaf, -1, 2)])
+    [1, 2, 3, 4, 5, 6, 7, 8] = some S := by
+  obtain ⟨S, hS, _⟩ := hier_lagrange_solvable 3 (by omega)
+    [(RTree.node (RTree.node .leaf .leaf) .leaf, 0, 1), (RTree.leaf, -1, 2)]
+    (by intro s hs; simp at hs; rcases hs with rfl | rfl <;> norm_num) [1, 2, 3, 4, 5, 6, 7, 8]
+    (by simp [lagDims, size, RTree.dim1, RTree.grid, RTree.nodes, Dim1.n])
+  exact ⟨S, hS⟩
 
 end SparseSpace.C10
